@@ -309,8 +309,14 @@ func (s *TO2Server) Respond(ctx context.Context, msgType uint8, msg io.Reader) (
 			s.Modules.CleanupModules(ctx)
 		}
 	case protocol.TO2DoneMsgType:
+		// Done is only in order once the service info phase has run to its end
+		pending := s.serviceInfoPending(ctx)
 		s.Modules.CleanupModules(ctx)
 		respType = protocol.TO2Done2MsgType
+		if pending != nil {
+			err = pending
+			break
+		}
 		resp, err = s.to2Done2(ctx, msg)
 	}
 
@@ -332,6 +338,19 @@ func (s *TO2Server) Respond(ctx context.Context, msgType uint8, msg io.Reader) (
 		errMsg.Timestamp = time.Now().Unix()
 	}
 	return protocol.ErrorMsgType, errMsg
+}
+
+// serviceInfoPending reports why TO2.Done is out of order: the device must
+// first have completed devmod and the owner must have finished all of its
+// service info modules (i.e. it has sent IsDone).
+func (s *TO2Server) serviceInfoPending(ctx context.Context) error {
+	if _, _, complete, err := s.Session.Devmod(ctx); err != nil || !complete {
+		return fmt.Errorf("TO2.Done received before devmod service info completed")
+	}
+	if name, module, err := s.Modules.Module(ctx); err == nil && module != nil {
+		return fmt.Errorf("TO2.Done received before owner service info module %q completed", name)
+	}
+	return nil
 }
 
 // CryptSession returns the current encryption session.
